@@ -101,6 +101,14 @@ def gen(rng, tier):
         merged.insert(rng.randint(0, len(merged)),
                       ['unknown', rng.choice(PST + FINAL), 'unk'])
         kinds.add('unknown')
+    # entries of *tasks* travel on the same channel - also of a task whose uid
+    # equals the uid of one of the pilots (uids are only unique per kind)
+    for _ in range(rng.randint(0, 2)):
+        if rng.random() < 0.5:
+            merged.insert(rng.randint(0, len(merged)),
+                          [rng.randrange(n), rng.choice(FINAL + [rps.NEW]),
+                           'task_entry'])
+            kinds.add('task_entry')
     batches, i = list(), 0
     while i < len(merged):
         k = rng.choice([1, 1, 2, 3, 6])
@@ -154,7 +162,10 @@ def run_a(seed, scenario, trace=None, tier='quick'):
                     and ev.get('chan') == C.rpc.STATE_PUBSUB:
                 m = ev['m']
                 if m.get('cmd') == 'update':
-                    for uid, state in m.get('things', []):
+                    tt = m.get('ttypes')
+                    for k, (uid, state) in enumerate(m.get('things', [])):
+                        if tt and tt[k] != 'pilot':
+                            continue      # a task's entry: not for pilots
                         if isinstance(uid, str) and uid.startswith('pilot.'):
                             model.notify(uid, state)
         sim.listeners.append(on_event)
@@ -239,6 +250,10 @@ def run_a(seed, scenario, trace=None, tier='quick'):
                 arg = list()
                 for p, state, kind in batch:
                     uid = 'pilot.unknown' if p == 'unknown' else pilots[p].uid
+                    if kind == 'task_entry':
+                        arg.append({'uid': uid, 'type': 'task',
+                                    'state': state})
+                        continue
                     arg.append({'uid': uid, 'type': 'pilot', 'state': state})
                 if arg:
                     pub.put(C.rpc.STATE_PUBSUB, {'cmd': 'update', 'arg': arg})
